@@ -45,6 +45,7 @@ static size_t after_first(const char * s, size_t n, const char * lit, size_t ln)
 }
 #define LIT(x) x, (sizeof(x) - 1)
 
+#ifndef UNIT_TB
 void h_epub_static(void) {
 	char * m = epub_mimetype();
 	ASSERT(m != NULL && at(m, 21, 0, "application/epub+zip", 21), "C09: the mimetype member is exactly application/epub+zip");
@@ -60,3 +61,31 @@ void h_epub_static(void) {
 	ASSERT(after_first(c, g_len, LIT("</container>")) != 0 && after_first(c, g_len, LIT("urn:oasis:names:tc:opendocument:xmlns:container")) != 0, "C09: container element in the OCF namespace, closed");
 	REACH();
 }
+#else
+/* ---- TextBundle: info.json from the REAL textbundle_info_json (textbundle.c).  TextBundle spec v2: a JSON object with
+ * "version" (the number 2) and, for a Markdown text member, "type": "net.daringfireball.markdown".  The scanner
+ * below is a JSON-object recogniser for the escape-free subset (strings without backslash; flat object). ---- */
+char * textbundle_info_json(void);
+void h_textbundle_info(void) {
+	char * c = textbundle_info_json();
+	ASSERT(c == g_buf && g_len >= 2 && g_len < BUF_N && c[g_len] == 0, "info.json is the recorded string");
+	ASSERT(c[0] == '{' && c[g_len - 1] == '}', "C09: info.json is one JSON object");
+	bool in_str = false; unsigned colons = 0, commas = 0, opens = 0, closes = 0, quotes = 0; bool ok = true;
+	for (size_t i = 0; i < BUF_N; i++) {
+		if (i < g_len) {
+			char ch = c[i];
+			if (ch == '\\' || (in_str && (ch == '\n' || ch == '\t'))) { ok = false; }
+			if (ch == '"') { in_str = !in_str; quotes++; }
+			else if (!in_str) {
+				if (ch == ':') { colons++; } else if (ch == ',') { commas++; } else if (ch == '{') { opens++; } else if (ch == '}') { closes++; }
+			}
+		}
+	}
+	ASSERT(ok && !in_str && opens == 1 && closes == 1 && colons >= 1 && commas + 1 == colons, "C09: info.json is a flat JSON object: strings closed, members separated by commas, no trailing comma");
+	size_t v = after_first(c, g_len, LIT("\"version\":"));
+	ASSERT(v != 0 && (at(c, g_len, v, LIT(" 2,")) || at(c, g_len, v, LIT("2,")) || at(c, g_len, v, LIT(" 2\n")) ), "C09: info.json declares TextBundle version 2 (a number)");
+	size_t t = after_first(c, g_len, LIT("\"type\":"));
+	ASSERT(t != 0 && (at(c, g_len, t, LIT(" \"net.daringfireball.markdown\"")) || at(c, g_len, t, LIT("\"net.daringfireball.markdown\""))), "C09: info.json declares the Markdown UTI for the text member");
+	REACH();
+}
+#endif
